@@ -1,4 +1,6 @@
 import PqV.Lemmas.KBitpacked
+import PqV.Lemmas.KDeltaLoop
+import PqV.Spec.Plain
 /-! Kernel refinements for PLAIN values: `read_bitpacked1` / `read_plain_boolean`, `unpack_byte_array`,
 and the writer's boolean packing (`convert`, bool branch: pad, reshape, packbits). -/
 namespace PqV.Impl
@@ -213,5 +215,43 @@ theorem writerPackBools_eq (vals : List Nat) (hb : ∀ v ∈ vals, v < 2) :
       ite_bit _ 3 (hb' 3 (by omega)), ite_bit _ 4 (hb' 4 (by omega)), ite_bit _ 5 (hb' 5 (by omega)),
       ite_bit _ 6 (hb' 6 (by omega)), ite_bit _ 7 (hb' 7 (by omega))]
     norm_num
+
+
+theorem widthFor_step (n : Nat) (h : 1 ≤ n) : widthFor n = widthFor (n / 2) + 1 := by
+  obtain ⟨k, rfl⟩ : ∃ k, n = k + 1 := ⟨n - 1, by omega⟩
+  simp only [widthFor]
+  by_cases h2 : 2 ≤ k + 1
+  · rw [Nat.log2_def, if_pos h2]
+    obtain ⟨j, hj⟩ : ∃ j, (k + 1) / 2 = j + 1 := ⟨(k + 1) / 2 - 1, by omega⟩
+    rw [hj]
+  · have : k = 0 := by omega
+    subst this
+    simp [widthFor, Nat.log2_def]
+
+theorem widthLoop_eq : ∀ (f i n : Nat), n < 2 ^ f → widthLoop (f + 1) i (n : Int) = i + widthFor n := by
+  intro f
+  induction f with
+  | zero =>
+    intro i n hn
+    have : n = 0 := by simpa using hn
+    subst this; simp [widthLoop, widthFor]
+  | succ f ih =>
+    intro i n hn
+    by_cases h0 : n = 0
+    · subst h0; simp [widthLoop, widthFor]
+    · have hne : ¬ ((n : Int) = 0) := by exact_mod_cast h0
+      have hdiv : ((n : Int) / 2) = ((n / 2 : Nat) : Int) := by simp
+      have hlt : n / 2 < 2 ^ f := by
+        rw [Nat.pow_succ] at hn; omega
+      conv => lhs; unfold widthLoop
+      simp only [hne, if_false, hdiv]
+      rw [ih (i + 1) (n / 2) hlt, widthFor_step n (by omega)]
+      omega
+
+/-- **`width_from_max_int` = the specification's level width** for every maximum level below 2^63 -/
+theorem widthFromMaxInt_eq (n : Nat) (h : n < 2 ^ 63) : widthFromMaxInt (n : Int) = widthFor n := by
+  unfold widthFromMaxInt
+  rw [wrapS64_small n h, widthLoop_eq 63 0 n h]
+  simp
 
 end PqV.Impl
